@@ -148,7 +148,7 @@ KANI_UNITS['tsops'] = {
 PROPERTIES = {
   'C02': {
     'verus': ['tripcount', 'algebra', 'foldv', 'dce', 'ccpbin', 'loopguard', 'licm', 'csehoist', 'ivelim', 'ccploop', 'lvnscope', 'escape'],
-    'quick_witness': ['exec_optimizer'],
+    'quick_witness': ['exec_optimizer', 'gen_optimizer'],
     'kani': ['fold', 'mirbin', 'induction'],
     'level': 'proof',
     'scope': 'arithmetic kernels only: constant folding, algebraic merging, operand reordering / comparison flipping, '
@@ -180,7 +180,7 @@ PROPERTIES = {
                    # the WebAssembly side of string constants: the data segment holds the constant's UTF-8 bytes
                    'strconst': ['wasm_global_string', 'print_byte_vec', 'byte_digit_to_char', 'lemma_wat_text_denotes_the_bytes',
                                 'lemma_decode_append', 'lemma_decode_enc_byte']},
-    'quick_witness': ['exec_semantics'],
+    'quick_witness': ['exec_semantics', 'gen_semantics'],
     'kani': ['wasmops'],
     'level': 'proof',
     'scope': 'three kernels only: the WebAssembly instruction selected for each of the 16 operators (and ref.eq for reference '
@@ -191,7 +191,7 @@ PROPERTIES = {
   },
   'C04': {
     'verus': ['opsem', 'oparms', 'wasmlower', 'strconst', 'tsstmt'],
-    'quick_witness': ['exec_backends'],
+    'quick_witness': ['exec_backends', 'gen_backends'],
     'kani': ['wasmops'],
     'level': 'proof',
     'scope': 'two kernels only: per operator, the TypeScript template and the WebAssembly instruction emitted by the two real '
@@ -328,7 +328,9 @@ STANDING_ASSUMPTIONS = {
              'documents are abstracted to how they were built; the lexer clause is proved on bytes, the parser / printer clauses on chars '
              '(quote and backslash are ASCII, so the two views agree on them: assumed)'],
   'loopguard': ['Verus/Z3; the enclosing match of extract_loop_guard_structure (which statements are the comparison and the `if`) is outside '
-                'the R14 block; `single_if_stmts[0].as_break().unwrap()` is a stub (R3); values are mathematical integers (comparisons only)'],
+                'the R14 block; `single_if_stmts[0].as_break().unwrap()` is a stub (R3); values are mathematical integers (comparisons only); the check that nothing after the guard '
+                'reads the guard result: dead_code_elimination::collect_use_from_stmts by its contract (adds the names the statements read: assumed, a plain recursive walk), '
+                'Statement::as_single_if / as_binary (EnumAsInner) and `&stmts[2..]` are stubs (R3); that the rewrite needs exactly this condition is the argument of fix 0e18c41, not a proof'],
   'licm': ['Verus/Z3; expression_is_loop_invariant by its meaning (not a variable the loop changes); the statement type reduced to the Binary variant (R6); '
            'the other arms of LICM (IndexedAccess, StructInit, ...) and the enclosing match are outside the block (R14)'],
   'csehoist': ['Verus/Z3; vstd BTreeSet specification with obeys_cmp for the derived Ord of BindedValue (assumed); operands opaque; the if-else '
